@@ -366,7 +366,15 @@ func (b *versionedKVBackend) config(ctx context.Context, s logical.Storage) (*Co
 
 	b.globalConfig = conf
 
-	return conf, nil
+	// Hand out a copy, as on the cache-hit paths above: callers such as
+	// pathConfigWrite modify the returned object before they persist it, and
+	// the cached configuration must only change once that write succeeded.
+	return &Configuration{
+		CasRequired:         conf.CasRequired,
+		MetadataCasRequired: conf.MetadataCasRequired,
+		MaxVersions:         conf.MaxVersions,
+		DeleteVersionAfter:  conf.DeleteVersionAfter,
+	}, nil
 }
 
 // getVersionKey uses the salt to generate the version key for a specific
